@@ -46,6 +46,19 @@ CHECKS["C19"] = (
     "DESIGN.md 3 (C19)",
 )
 
+CHECKS["C08"] = (
+    "Coq proof (lists, Permutation, Sorted) about a hand-written executable model + certificate soundness; exact vm_compute correspondence; refutation theorem for the pinned code (known finding D5)",
+    "Model/Surveys.v models concatenate-label-sort, numpy.unique and the offset indicator columns. Theorems: an accepted certificate "
+    "(merge_check) implies the merged rows with the labels the implementation attached are a permutation of the labelled inputs (each row "
+    "keeps its own survey), time-sorted, offset columns built from those labels; column 0 all ones, column j the indicator of the j-th "
+    "smallest key, the smallest key is the only offset-free survey, list input gives labels 0..m in order. The pinned code does NOT have the "
+    "property: C08_pinned_code_refuted proves it on the faithful model merge_code; the check reports that as KNOWN-FINDING D5 and accepts "
+    "per case either merge_check or code_check (pinned behaviour), so any other deviation is still a violation.",
+    "Trusted: Coq kernel + vm_compute; harness recovery of the permutation from unique velocity tags; astropy unit conversion of later "
+    "sources; numpy.unique ordering. The consequence for likelihoods relies on C01 (kernel value given data and design matrix).",
+    "DESIGN.md 3 (C08)",
+)
+
 NOT_YET = {}
 
 
